@@ -122,3 +122,46 @@ Theorem C06_eject_z_correct : forall (G M : Type) (mul : M -> M -> M) (one : M),
     ocomp G M mul one zden gden sden mden oden (eject_z period allq l) = icomp G M mul one zden gden sden mden oden l.
 Proof. exact eject_z_correct. Qed.
 Print Assumptions C06_eject_z_correct.
+
+(* ---- what acceptance by the validator MEANS (Sim/TraceSem.v, Sim/ExecCommProofs.v) ----
+   For ANY assignment of matrices to the operations that acts only on an operation's own qubits, the accepted output
+   computes the same state map as the input ... *)
+From VF Require Import Sim.Measure Sim.TraceSem Sim.ExecComm Sim.ExecCommProofs.
+Theorem C06_trace_equiv_b_same_map : forall K (O : Ops K), Laws O -> forall den : top -> rop (K:=K),
+  (forall o x, In x (rop_ax (den o)) -> In x (t_wr o)) ->
+  forall w w', trace_equiv_b w w' = true ->
+  forall psi i, run O (map den w') psi i = run O (map den w) psi i.
+Proof. exact @trace_equiv_b_same_map. Qed.
+Print Assumptions C06_trace_equiv_b_same_map.
+
+(* ... and, with measurements, classical control and channels (the ensemble semantics the checks compare Cirq's simulators
+   with), the same ensemble of (weight, state, per-key records) branches up to order: same distribution over the records of
+   every key and same post-measurement states.  den may be any denotation that keeps an operation's qubits and written keys
+   inside its exclusive resources and the keys it reads inside its resources. *)
+Theorem C06_trace_equiv_b_exec : forall K (O : Ops K), Laws O -> forall (den : top -> mop (K:=K)) (qres kres : nat -> nat),
+  (forall o x, In x (mop_axes (den o)) -> In (qres x) (t_wr o)) ->
+  (forall o k, In k (mop_writes (den o)) -> In (kres k) (t_wr o)) ->
+  (forall o k, In k (mop_reads (den o)) -> In (kres k) (t_rd o) \/ In (kres k) (t_wr o)) ->
+  forall sh w w' init, Forall (mop_wf sh) (map den w') -> length init = length (enum sh) ->
+  trace_equiv_b w w' = true -> ens_equiv (exec O sh (map den w') init) (exec O sh (map den w) init).
+Proof. exact @trace_equiv_b_exec. Qed.
+Print Assumptions C06_trace_equiv_b_exec.
+
+(* exchanging independent operations of a circuit with measurements keeps the probability of every assignment of
+   records to keys, and the weighted post-measurement states that go with it *)
+Theorem C06_exec_teq_keyrec_mass : forall K (O : Ops K), Laws O -> forall sh ops ops' init kvs,
+  Forall (mop_wf sh) ops -> length init = length (enum sh) -> teq mop_dep ops ops' ->
+  keyrec_mass O kvs (exec O sh ops init) = keyrec_mass O kvs (exec O sh ops' init).
+Proof. exact @exec_teq_keyrec_mass. Qed.
+Print Assumptions C06_exec_teq_keyrec_mass.
+Theorem C06_exec_teq_keyrec_states : forall K (O : Ops K), Laws O -> forall sh ops ops' init kvs,
+  Forall (mop_wf sh) ops -> length init = length (enum sh) -> teq mop_dep ops ops' ->
+  Permutation (keyrec_states kvs (exec O sh ops init)) (keyrec_states kvs (exec O sh ops' init)).
+Proof. exact @exec_teq_keyrec_states. Qed.
+Print Assumptions C06_exec_teq_keyrec_states.
+(* plain list equality of the ensembles is too strong (two measurements into different keys): kept as a refutation *)
+Theorem C06_step_comm_eq_refuted : forall K (O : Ops K), exists sh a b br,
+  mop_indep a b /\ mop_wf sh a /\ mop_wf sh b /\ wsh sh br /\
+  flat_map (step O sh b) (step O sh a br) <> flat_map (step O sh a) (step O sh b br).
+Proof. exact @step_comm_eq_refuted. Qed.
+Print Assumptions C06_step_comm_eq_refuted.
